@@ -21,7 +21,7 @@ pub fn workload(r: &mut Rng, k: u64, mix: u32, ngoals: usize) -> Work {
     };
     // one slot of every mix: the multi-answer fragment
     if matches!((mix, sel), (0, 5) | (1, 8)) || (mix >= 2 && sel == 11) {
-        let (prog, pool) = gen_multi_answer(r);
+        let (prog, pool) = gen_multi_or_graph(r);
         let mut pool = pool;
         r.shuffle(&mut pool);
         let goals = pool.into_iter().take(ngoals).map(|(g, e)| (goal_text(&g), e, Some(g))).collect();
